@@ -27,7 +27,7 @@ REVERSED_FIXES = {
     "D13_cdbd_list_input": ["C14"], "D14_hdm_proxy_names": ["C14"], "D15_hdm_reference_labels": ["C14"], "D16_md3_label_column_order": ["C19"],
 }
 # seeded changes that also break a neighbouring property whose check sees them far more reliably
-EXTRA_CHECKS = {"C17-m1": ["C09"]}
+EXTRA_CHECKS = {"C17-m1": ["C09"], "C17-w3m2": ["C04"]}
 # changes that need more simulated time than the quick tier spends (stated in DESIGN.md 9.6): checked with the thorough tier
 THOROUGH_ONLY = {"P06-w5m1"}
 # (file, old, new, replace-all?, checks)
